@@ -179,7 +179,8 @@ def _solve_bp_custom(
         if len(col) != m:
             raise ValueError(f"column {i} has wrong length: {len(col)} vs {m}")
 
-    columns: list[tuple[int, ...]] = [tuple(c) for c in initial_columns]
+    # A plan is a dict keyed by column: a column listed twice would have its two counts overwrite each other
+    columns: list[tuple[int, ...]] = list(dict.fromkeys(tuple(c) for c in initial_columns))
     column_set: set[tuple[int, ...]] = set(columns)
 
     return _branch_and_price(
